@@ -354,6 +354,10 @@ def worker_main(pid, subname, shard, tier, seed, outpath):
         strat = sub.strategy(tier)
 
         def body(spec):
+            state["calls"] = state.get("calls", 0) + 1
+            # Hypothesis always starts with the minimal example, which is identical in every shard: run it in shard 0 only
+            if state["calls"] == 1 and shard != 0 and n_examples > 1:
+                return
             if state["harness"] is not None:
                 return
             if state["fail"] is not None:
@@ -375,7 +379,7 @@ def worker_main(pid, subname, shard, tier, seed, outpath):
 
         test = given(strat)(body)
         test = hypothesis.seed(derive_seed(seed, pid, subname, shard))(test)
-        test = settings(max_examples=n_examples, database=None, deadline=None, derandomize=False,
+        test = settings(max_examples=n_examples + (1 if (shard != 0 and n_examples > 1) else 0), database=None, deadline=None, derandomize=False,
                         report_multiple_bugs=False, print_blob=False,
                         suppress_health_check=list(HealthCheck),
                         phases=[Phase.explicit, Phase.generate, Phase.shrink])(test)
